@@ -297,9 +297,10 @@ def gen_cases(rng, budget):
         rng.shuffle(order)
         cases.append(mk_case("outside", root, pts, order, rng=rng))
     for _ in range(budget["tie"]):
-        c = gen_tie(rng)
-        if c:
-            cases.append(c)
+        c = None
+        while c is None:
+            c = gen_tie(rng)
+        cases.append(c)
     return cases
 
 
